@@ -322,6 +322,13 @@ def handle : Handler
   | .sym "nm" :: args => handleNM args
   | .sym "ctl" :: args => handleCtl args
   | .sym "pw" :: args => handlePw args
+  | .sym "warn" :: args => Id.run do         -- the one-liners' warnflag from the final counters and resolved limits
+    let some (.int e) := kw? args "evals" | return "bad-op"
+    let some (.int g) := kw? args "gens" | return "bad-op"
+    let some (.int mi) := kw? args "maxiter" | return "bad-op"
+    let some (.int mf) := kw? args "maxfun" | return "bad-op"
+    let c : Ctl := { evals := e.toNat, gens := g.toNat, maxiter := .val mi.toNat, maxfun := .val mf.toNat }
+    return s!"ok warnflag={c.warnflag} msg={showMsg (c.message false)}"
   | .sym "K" :: args => Id.run do            -- twin test of the constraints coupling
     let some su := parseSetup args | return "bad-op"
     let some x := (kw? args "x").bind Val.asFloats? | return "bad-op"
